@@ -34,3 +34,12 @@ PROPS["C08"] = {
     "trusted_base": ["element identity is tracked by the harness through Go pointer identity"],
     "assumptions": ["documents are built through the API: at most one section-settings element unless the caller writes Body.Elements directly"],
 }
+
+PROPS["C14"] = {
+    "n": {"quick": 1500, "thorough": 40000},
+    "per_shard": 60,
+    "corr_targets": ["Corr/StyleCorr.vo"],
+    "corr": "Corr/StyleCorr.v: Model.Style.resolve_top vs GetStyleWithInheritance on histories of AddStyle / in-place edits / RemoveStyle / queries (setting objects identified by pointer)",
+    "trusted_base": ["Gen/StyleFields.v and Gen/CloneFields.v regenerated from pkg/style/style.go on every run", "setting objects are identified by Go pointer identity in the harness"],
+    "assumptions": ["deep-copy (as opposed to field-complete) cloning is judged by the harness (scribbling through the clone), the table check is syntactic"],
+}
